@@ -26,6 +26,50 @@ type PropertySpec struct {
 	LabelPrefixes []string `json:"label_prefixes"`
 }
 
+// LoadSpec reads a property spec and resolves entries of the form {"name": n, "ref": "Cxx"}: the entry n of
+// harness/Cxx.json is used (one definition for an entry that several properties run; only the label prefix
+// differs between the runs).
+func LoadSpec(path string) (*PropertySpec, error) {
+	b, err := os.ReadFile(path)
+	if err != nil {
+		return nil, err
+	}
+	var spec PropertySpec
+	if err := json.Unmarshal(b, &spec); err != nil {
+		return nil, fmt.Errorf("%s: %v", path, err)
+	}
+	cache := map[string]*PropertySpec{}
+	for i, e := range spec.Entries {
+		if e.Ref == "" {
+			continue
+		}
+		other, ok := cache[e.Ref]
+		if !ok {
+			ob, err := os.ReadFile(filepath.Join(filepath.Dir(path), e.Ref+".json"))
+			if err != nil {
+				return nil, err
+			}
+			other = &PropertySpec{}
+			if err := json.Unmarshal(ob, other); err != nil {
+				return nil, fmt.Errorf("%s.json: %v", e.Ref, err)
+			}
+			cache[e.Ref] = other
+		}
+		found := false
+		for _, oe := range other.Entries {
+			if oe.Name == e.Name && oe.Ref == "" && (e.Family == "" || e.Family == oe.Family) {
+				spec.Entries[i] = oe
+				found = true
+				break
+			}
+		}
+		if !found {
+			return nil, fmt.Errorf("%s: entry %s not found in %s.json", path, e.Name, e.Ref)
+		}
+	}
+	return &spec, nil
+}
+
 // HarnessDirs maps harness sub-directory to the repo-relative package directory.
 var HarnessDirs = map[string]string{
 	"gocql":   ".",
@@ -503,14 +547,11 @@ type RunOutput struct {
 
 func Run(cfg RunConfig) (*RunOutput, error) {
 	t0 := time.Now()
-	b, err := os.ReadFile(cfg.SpecFile)
+	specp, err := LoadSpec(cfg.SpecFile)
 	if err != nil {
 		return nil, err
 	}
-	var spec PropertySpec
-	if err := json.Unmarshal(b, &spec); err != nil {
-		return nil, fmt.Errorf("%s: %v", cfg.SpecFile, err)
-	}
+	spec := *specp
 	if cfg.KnownFile != "" {
 		if kb, err := os.ReadFile(cfg.KnownFile); err == nil {
 			var kf struct {
